@@ -85,6 +85,8 @@ HasDev(s, o) == \E d \in s.dev : d.o = o
 DevOf(s, o)  == CHOOSE d \in s.dev : d.o = o
 Dev(o, ip, stale) == [o |-> o, ip |-> ip, stale |-> stale]
 
+InitKeeps(s, d) == IF d = "vips" THEN {p \in s.vips : p[1] \notin NetAddrs} ELSE {}
+
 (* on_create_request *)
 SvcCreate(s, o, c) ==
   IF ~HasDev(s, o)
@@ -174,6 +176,11 @@ Step(s, ev, a, c) ==
          R([s EXCEPT !.specs = {p \in @ : ~(AppOf(p[1]) = a[2] /\ p[2] = a[1])}], "ok")
     [] ev = "SpecGC" ->
          R([s EXCEPT !.specs = LiveOnly(@, s.live)], "ok")
+    (* ---- node start (beyond C14): VipMgr/RuleMgr/EndpointsMgr.initialize ---- *)
+    (* vips: every entry whose name is an address of the configured network is  *)
+    (* removed, anything else in the directory is kept; rules, endpoint specs:  *)
+    (* the directory is emptied.                                                *)
+    [] ev = "Initialize" -> R(DbSet(s, a[1], InitKeeps(s, a[1])), "ok")
     (* ---- stepped garbage collection of database a[1] ---- *)
     [] ev = "GcBegin" ->
          R([s EXCEPT !.gc = [on |-> TRUE, db |-> a[1], start |-> DbGet(s, a[1]),
@@ -299,6 +306,22 @@ StepFail(pre, ev, a, res, post) ==
   \cup FailIf("C14.ownerOnly", C14ownerOnly(pre, ev, a, post))
   \cup FailIf("C14.gcExact", C14gcExact(pre, ev, post))
 
+(* beyond the listed property (conformance class, reported as drift):         *)
+(* ext.init.removed -- after Initialize(d) nothing of what it is to remove is  *)
+(*                     left and the call returned normally;                    *)
+(* ext.init.kept    -- nothing else changed: what it is to keep is still there,*)
+(*                     nothing was added, the other databases and the owner    *)
+(*                     directories are untouched.                              *)
+ExtFail(pre, ev, a, res, post) ==
+  IF ev # "Initialize" THEN {}
+  ELSE LET d == a[1] IN
+       FailIf("ext.init.removed",
+              res = "ok" /\ DbGet(post, d) \cap (DbGet(pre, d) \ InitKeeps(pre, d)) = {})
+       \cup FailIf("ext.init.kept",
+              /\ InitKeeps(pre, d) \subseteq DbGet(post, d) /\ DbGet(post, d) \subseteq DbGet(pre, d)
+              /\ \A x \in {"vips", "rules", "specs"} \ {d} : DbGet(post, x) = DbGet(pre, x)
+              /\ post.live = pre.live)
+
 (* exercised flags: the antecedent of a clause was non-trivially true        *)
 StepEx(pre, ev, a, res, post) ==
   LET db == DbOf(pre, ev) IN
@@ -320,6 +343,8 @@ StepEx(pre, ev, a, res, post) ==
          /\ ev \in GcOps \cup {"Synchronize"}
          /\ \E p \in db : p[2] \in pre.live
          /\ \E p \in db : p[2] \notin pre.live)
+  \cup FlagIf("ext.init", ev = "Initialize")
+  \cup FlagIf("ext.init.nonempty", ev = "Initialize" /\ DbGet(pre, a[1]) # {})
   \cup FlagIf("gcInterleaved", pre.gc.on /\ ev \in EnvOps)
   \cup FlagIf("gcRaceNewOwner",
          /\ ev \in GcSegs /\ \E p \in DbGet(pre, pre.gc.db) : p[2] \in pre.live \ pre.gc.snap)
@@ -340,7 +365,8 @@ Advance(ev, a) ==
   /\ \E c \in Choices(st, ev, a) :
        LET r == Step(st, ev, a, c) IN
        st' = [r.post EXCEPT !.n = IF MaxEvents = 0 THEN 0 ELSE st.n + 1,
-                            !.bad = st.bad \cup StepFail(st, ev, a, r.res, r.post)]
+                            !.bad = st.bad \cup StepFail(st, ev, a, r.res, r.post)
+                                           \cup ExtFail(st, ev, a, r.res, r.post)]
 
 (* While a stepped pass runs, only the environment acts besides it, and only  *)
 (* the way the system can: a container directory is created before anything   *)
@@ -373,6 +399,7 @@ OnDelete(o)        == /\ Idle /\ st.phase = "run" /\ (o \in st.pend \/ o \notin 
                       /\ Advance("OnDelete", <<o>>)
 (* a pass over database d is offered when d's create action is in focus *)
 GcCreate(d) == CASE d = "vips" -> "VipAlloc" [] d = "rules" -> "RuleCreate" [] OTHER -> "SpecCreate"
+Initialize(d)      == Idle /\ GcCreate(d) \in Events /\ Advance("Initialize", <<d>>)
 GcBegin(d)         == Idle /\ GcCreate(d) \in Events /\ Advance("GcBegin", <<d>>)
 GcList(d)          == st.gc.on /\ st.gc.db = d /\ ~st.gc.listed /\ Advance("GcList", <<d>>)
 GcVisit(d, e)      == /\ st.gc.on /\ st.gc.db = d /\ st.gc.listed /\ e \in st.gc.todo
@@ -399,6 +426,7 @@ Next ==
   \/ Synchronize
   \/ \E o \in OwnerIds : OnCreate(o)
   \/ \E o \in OwnerIds : OnDelete(o)
+  \/ \E d \in {"vips", "rules", "specs"} : Initialize(d)
   \/ \E d \in {"vips", "rules", "specs"} : GcBegin(d)
   \/ \E d \in {"vips", "rules", "specs"} : GcList(d)
   \/ \E d \in {"vips", "rules", "specs"}, e \in HostSet \cup Outside \cup RuleIds \cup SpecIds :
